@@ -785,18 +785,22 @@ StepBust ==
 
 \* P2: mark dead members uninit, move value and table out; the order of `inners` is the
 \* table order of the cycle map: every permutation is explored
+MarkFreed == {k \in DOMAIN Top.cyc : heap.mem[k[2]] # "alloc"}
+MarkSet   == {k[2] : k \in {k \in DOMAIN Top.cyc \ MarkFreed : heap.strong[k[2]] = 0}}
+IsOrderOf(order, S) == Len(order) = Cardinality(S) /\ {order[i] : i \in 1..Len(order)} = S
+StepMarkO(order) ==          \* with the destruction order given (the trace specification reads it from the log)
+  /\ Running /\ Stack # <<>> /\ Top.pc = "mark"
+  /\ LET mv == MarkSet
+     IN IF MarkFreed # {} THEN Crash(<<"uaf", (CHOOSE k \in MarkFreed : TRUE)[2]>>)
+        ELSE /\ IsOrderOf(order, mv)
+             /\ Commit([heap EXCEPT !.strong = [o \in Obj |-> IF o \in mv THEN UNINIT ELSE @[o]],
+                                    !.vinit  = [o \in Obj |-> IF o \in mv THEN FALSE ELSE @[o]],
+                                    !.linit  = [o \in Obj |-> IF o \in mv THEN FALSE ELSE @[o]]],
+                       led, ob,
+                       [ctl EXCEPT !.stack = SetTop([Top EXCEPT !.pc = "cdestroy", !.s = order])])
 StepMark ==
   /\ Running /\ Stack # <<>> /\ Top.pc = "mark"
-  /\ LET K     == DOMAIN Top.cyc
-         freed == {k \in K : heap.mem[k[2]] # "alloc"}
-         mv    == {k[2] : k \in {k \in K \ freed : heap.strong[k[2]] = 0}}
-     IN IF freed # {} THEN Crash(<<"uaf", (CHOOSE k \in freed : TRUE)[2]>>)
-        ELSE \E order \in SeqsOf(mv) :
-               Commit([heap EXCEPT !.strong = [o \in Obj |-> IF o \in mv THEN UNINIT ELSE @[o]],
-                                   !.vinit  = [o \in Obj |-> IF o \in mv THEN FALSE ELSE @[o]],
-                                   !.linit  = [o \in Obj |-> IF o \in mv THEN FALSE ELSE @[o]]],
-                      led, ob,
-                      [ctl EXCEPT !.stack = SetTop([Top EXCEPT !.pc = "cdestroy", !.s = order])])
+  /\ \E order \in (IF MarkFreed # {} THEN {<<>>} ELSE SeqsOf(MarkSet)) : StepMarkO(order)
 
 \* P3: drop(inners), one (value, table) pair at a time
 StepCycleDestroy ==
